@@ -60,7 +60,7 @@ VERIF_TARGET(c01_supply, nullptr, 48, 1000,
              "histories (<=24 ops) on a regtest node over a 104/146/148-block base (so histories cross the halving at 150): valid blocks with 0-4 "
              "generated txs (zero fee .. all-in-fees, burns, create-and-spend) and coinbase claiming reward-k..reward; fault catalogue on the tip "
              "(coinbase +1/+2/+subsidy/up to MAX_MONEY, coinbase claiming the fee of a removed tx, tx out = in+1, output MAX_MONEY+1, two outputs "
-             "summing above MAX_MONEY, -1, INT64_MIN/MAX, same in coinbase outputs) each followed by its valid twin; overtaking reorgs, a faulty "
+             "summing above MAX_MONEY, 8785 in-range outputs whose sum wraps 2^64 to the legitimate amount (coinbase and spend), -1, INT64_MIN/MAX, same in coinbase outputs) each followed by its valid twin; overtaking reorgs, a faulty "
              "block at the end of a reorg, invalidate/reconsider, re-delivery of rejected blocks, child of a rejected block; after every op the "
              "active chain is replayed by the model and UTXO totals are compared. non-trivial = >=1 rejected catalogue block and >=1 connected "
              "fee-paying tx and >=1 reorg; distinct = op kinds + fault kinds + reorg depths")
@@ -158,9 +158,9 @@ VERIF_TARGET(c01_supply, nullptr, 48, 1000,
             st.note("valid h=", p.height, " ntx=", p.made.size(), " fees=", p.fees, " cb=", value, "/", full, parent == tip ? "" : " (side)");
         } else if (kind <= 9) {
             // ---------------- fault catalogue on the tip, then the valid twin
-            const unsigned fk = s.range<unsigned>(0, 11);
+            const unsigned fk = s.range<unsigned>(0, 13);
             const bool need_fee = fk == 1;
-            const bool need_tx = fk >= 2 && fk <= 7;
+            const bool need_tx = (fk >= 2 && fk <= 7) || fk == 13;
             Plan p = plan_block(sim, rc, tg, s, tip, 3, need_tx, need_fee, op);
             if (!p.usable) { st.cls("fault-skipped"); continue; }
             auto twin = sim.Build(p.spec); // claims exactly subsidy + fees
@@ -241,6 +241,22 @@ VERIF_TARGET(c01_supply, nullptr, 48, 1000,
                 set_cb([&](CMutableTransaction& cb) { cb.vout[0].nValue = REF_MAX_MONEY; cb.vout.emplace_back(1, sim.keys.Script(SpkType::ANYONE_P2WSH)); });
                 want = "bad-txns-txouttotal-toolarge"; label = "cb-total-MAX+1";
                 break;
+            case 12: case 13: {
+                // CVE-2010-5139 class: >= 8785 outputs, each within [0, MAX_MONEY], whose exact sum is 2^64 + v: a 64-bit running total that is
+                // only range-checked at the end wraps round to the small legitimate amount v (12: coinbase, v = subsidy + fees; 13: spend, v = inputs)
+                const unsigned __int128 two64 = (unsigned __int128)1 << 64;
+                const unsigned n_max = unsigned(two64 / (unsigned __int128)REF_MAX_MONEY);                    // 8784
+                const CAmount rem = CAmount(two64 - (unsigned __int128)n_max * (unsigned __int128)REF_MAX_MONEY); // 2^64 - 8784 * MAX_MONEY
+                const CAmount v = fk == 12 ? full : p.made.back().in;
+                if (rem + v > REF_MAX_MONEY) break;
+                const CScript tiny = sim.keys.Script(SpkType::BARE_TRUE); // 1-byte scripts keep the block below 100 KB
+                std::vector<CTxOut> outs(n_max, CTxOut(REF_MAX_MONEY, tiny));
+                outs.emplace_back(rem + v, sim.keys.Script(SpkType::ANYONE_P2WSH));
+                if (fk == 12) { set_cb([&](CMutableTransaction& cb) { cb.vout = outs; }); label = "cb-sum-wraps-2^64"; }
+                else { set_last_outs(outs); label = "tx-sum-wraps-2^64"; }
+                want = "bad-txns-txouttotal-toolarge";
+                break;
+            }
             default:
                 // coinbase takes subsidy of the previous era / double subsidy
                 set_cb([&](CMutableTransaction& cb) { cb.vout[0].nValue = 2 * p.subsidy + p.fees; });
